@@ -83,6 +83,30 @@ def check(case, ctx):
     if not ctx.returned(out):
         return
     s = out.value
+    judge(ctx, s, p, kw)
+    # generate() is a public method: calling it again on the same object must produce a fresh, equally consistent data set
+    again = call(lambda: s.generate(s.rotations))
+    if ctx.returned(again, clause="no-exception[generate() called again]"):
+        judge(Tagged(ctx, " [generate() called again]"), s, p, kw)
+
+
+class Tagged:
+    """ctx proxy that appends a tag to every clause name (same oracles, second observation point)."""
+
+    def __init__(self, ctx, tag):
+        self.ctx, self.tag = ctx, tag
+
+    def le(self, clause, *a, **k):
+        return self.ctx.le(clause + self.tag, *a, **k)
+
+    def ok(self, clause, *a, **k):
+        return self.ctx.ok(clause + self.tag, *a, **k)
+
+    def note(self, *a, **k):
+        return self.ctx.note(*a, **k)
+
+
+def judge(ctx, s, p, kw):
     N = int(s.num_samples)
     Q = np.array(np.asarray(s.quaternions), float)
     R = np.array(s.rotations, float)
